@@ -266,7 +266,17 @@ impl Drop for SyncAllocatorInner {
 /// Returns the new boundary (the last accessible page) or an I/O error.
 fn grow(file: &File, page: PageNumber) -> std::io::Result<PageNumber> {
     let next_bump = (page.0 + GROW_STORE_BY_PAGES - 1).next_multiple_of(GROW_STORE_BY_PAGES);
+    #[cfg(feature = "verif")]
+    let _vg = crate::verif::pre(
+        "beatree_grow",
+        crate::verif::Kind::SetLen,
+        file.as_raw_fd(),
+        next_bump as u64 * PAGE_SIZE as u64,
+        &[],
+    )?;
     file.set_len(next_bump as u64 * PAGE_SIZE as u64)?;
+    #[cfg(feature = "verif")]
+    _vg.done();
     Ok(PageNumber(next_bump))
 }
 
